@@ -284,6 +284,17 @@ fn io_error(e: std::io::Error, filename: &str, included_in: &Option<(String, u32
     }
 }
 
+// Is the character that follows `s` escaped ? It is when `s` ends with an odd number of backslashes
+// (an even number of them is a sequence of escaped backslashes)
+fn ends_with_escape(s: &str) -> bool {
+    let mut i = s.chars();
+    let mut escape = false;
+    while let Some(c) = i.next() {
+        escape = c == '\\' && !escape;
+    }
+    escape
+}
+
 /// Preprocesses a generic buffer.
 ///
 /// This function takes any generic BufRead input and Write output and preprocesses it.
@@ -387,19 +398,13 @@ pub fn process<I: BufRead, O: Write>(
                         while !done {
                             let s3 = &remaining[cursor..];
                             if let Some((left, _)) = s3.split_once('"') {
-                                if !left.ends_with("\\") {
+                                if !ends_with_escape(left) {
                                     found = true;
                                     done = true;
                                     cursor += left.len();
                                 } else {
-                                    // Let's check it's not an escaped backslash
-                                    if left.ends_with("\\\\") {
-                                        found = true;
-                                        done = true;
-                                        cursor += left.len();
-                                    } else {
-                                        cursor += left.len() + 1;
-                                    }
+                                    // This quote is escaped: it belongs to the string
+                                    cursor += left.len() + 1;
                                 }
                             } else {
                                 done = true;
